@@ -536,7 +536,12 @@ func (s *Scheduler) verify(jobConfiguration *JobConfiguration) error {
 		if trigger.TriggerType == TriggerTypeOnChange {
 			// if an event handler is given, that is ok in this context, so we just pass it on
 			if trigger.MonitoredDataset != "" {
-				return nil
+				// the error handlers of this trigger and the remaining triggers still need to be verified (and initialised)
+				err := verifyErrorHandlers(trigger, jobConfiguration.ID, jobConfiguration.Title)
+				if err != nil {
+					return err
+				}
+				continue
 			}
 			return errors.New("trigger type 'onchange' requires that 'MonitoredDataset' parameter also is set")
 		}
